@@ -31,7 +31,8 @@ def plan(tier, seed):
                   "forks": 6 if tier == "quick" else 40})
     if tier == "thorough":
         specs.append({"name": "repo-tests", "kind": "repo_tests", "primitive_monitors": False})
-    return specs
+    from vlib.common import both_interpreter_modes
+    return both_interpreter_modes(specs)
 
 
 def ref_encrypt(key, iv, message):
